@@ -46,7 +46,8 @@ type Program struct {
 	SSA    *ssa.Program
 	SSAPkg map[string]*ssa.Package // import path -> SSA package (module packages only)
 
-	AllFuncs map[*ssa.Function]bool // every function with a body in module packages (incl. anonymous)
+	AllFuncs     map[*ssa.Function]bool // every function with a body in module packages (incl. anonymous)
+	globalNonNil map[*ssa.Global]int
 
 	chaG *callgraph.Graph
 	vtaG *callgraph.Graph
@@ -147,7 +148,44 @@ func Load(overlay map[string][]byte) (*Program, error) {
 			p.AllFuncs[fn] = true
 		}
 	}
+	currentProg = p
 	return p, nil
+}
+
+// currentProg is the program loaded last (rules run on one program at a time; control mutants load a new one).
+var currentProg *Program
+
+// GlobalAlwaysNonNil reports whether the package-level variable g is assigned exactly once in the module, in a
+// package initialiser, from a call (e.g. var ErrX = status.Error(…) / errors.New(…)): such a sentinel error is
+// never nil.
+func GlobalAlwaysNonNil(g *ssa.Global) bool {
+	p := currentProg
+	if p == nil {
+		return false
+	}
+	if p.globalNonNil == nil {
+		p.globalNonNil = map[*ssa.Global]int{}
+		for fn := range p.AllFuncs {
+			isInit := fn.Name() == "init" && fn.Parent() == nil
+			Instrs(fn, func(in ssa.Instruction) {
+				st, ok := in.(*ssa.Store)
+				if !ok {
+					return
+				}
+				gl, ok := st.Addr.(*ssa.Global)
+				if !ok {
+					return
+				}
+				_, isCall := st.Val.(*ssa.Call)
+				if isInit && isCall && p.globalNonNil[gl] == 0 {
+					p.globalNonNil[gl] = 1
+				} else {
+					p.globalNonNil[gl] = 2 // several stores, or a store that is not an initialising call
+				}
+			})
+		}
+	}
+	return p.globalNonNil[g] == 1
 }
 
 // CHA returns the class-hierarchy call graph (built on demand).
